@@ -2206,6 +2206,9 @@ def mnemo_to_att(name, args, asm_format):
             return name[:4]+'wl'
         elif sz == (u16, u08):
             return name[:4]+'bw'
+        elif sz == (u16, u16):
+            # (66 0F BF /r; objdump prints movsww, GNU as has no such mnemonic)
+            return name[:4]+'ww'
     elif name == 'push':
         return 'pushl'
     raise ValueError("Mnemonic %r unknown"%name)
